@@ -71,6 +71,12 @@ def judge(r, key, f, a, b, x, ok, tol_eff, dtype, cs):
         l_ = max(dtype(lo), xx - delta); h_ = min(dtype(hi), xx + delta)
         fl, fh, fx = f(l_), f(h_), f(xx)
         return bool(np.sign(fl) * np.sign(fh) <= 0 or fx == 0 or np.sign(fl) * np.sign(fx) <= 0 or np.sign(fx) * np.sign(fh) <= 0)
+    if (not sign_change) and (float(fa) == 0.0 or float(fb) == 0.0):
+        # an exact root sits on an end point of the bracket ('roots at interior/end points'): it must be found
+        if not ok or not finite_pt or not (abs(float(f(dtype(x)))) <= tol_eff or change_near(dtype(x))):
+            r.v(key + "/end-point-root-lost", "a root exactly at an end point of the bracket is returned with success", cs,
+                observed=dict(x=float(x) if finite_pt else "inf", success=bool(ok), fa=float(fa), fb=float(fb)), expected="success at a root")
+            return
     if sign_change:
         if not ok:
             r.v(key + "/sign-change-no-success", "a sign change over the bracket => success is reported", cs,
